@@ -45,12 +45,11 @@ open Qvnt.Spec Generated
 
 /-! ### 1. the generated table is the expected one -/
 
-/-- Every `gate!` macro arm of `gates.rs`, and the prefix arm, has exactly the text the model
-mirrors, and there are no other arms. -/
+/-- The prefix arm of `process` has exactly the text the model mirrors, and `macro_rules! gate` has no arm besides the seven
+the model knows. (The seven arms themselves are no longer tied by their text: they are translated on every run and proved
+equal to `runArm`, `Lemmas/GenGates`, `Props/Code/C09.lean`.) -/
 theorem C09_arms_canonical :
-    (Generated.armAnyCanonical && Generated.armDgrCanonical && Generated.armTwoCanonical &&
-      Generated.armRCanonical && Generated.armU1Canonical && Generated.armU2Canonical &&
-      Generated.armU3Canonical && Generated.prefixArmCanonical && Generated.noExtraArms) = true := by
+    (Generated.prefixArmCanonical && Generated.noExtraArms) = true := by
   decide
 
 /-- The table has exactly these names, in this order. -/
